@@ -96,4 +96,10 @@ def params(draw, n_blocs=None, max_slate=3, allow_zero=True, min_slate=1, shuffl
             o2 = draw(st.permutations(blocs))
             cohesion[b] = {k: cohesion[b][k] for k in o1}
             intervals[b] = {k: intervals[b][k] for k in o2}
+        # ... and so is listing the blocs themselves in a different order in each of the four
+        # top-level dictionaries (every constructor compares the key sets, not the orders)
+        slates = {k: slates[k] for k in draw(st.permutations(blocs))}
+        prop = {k: prop[k] for k in draw(st.permutations(blocs))}
+        cohesion = {k: cohesion[k] for k in draw(st.permutations(blocs))}
+        intervals = {k: intervals[k] for k in draw(st.permutations(blocs))}
     return {"slates": slates, "prop": prop, "cohesion": cohesion, "intervals": intervals}
